@@ -630,11 +630,12 @@ def c02_10(ctx):
 
 
 def c02_11(ctx):
-    """the key range and the scalar multiplication BIP340 signing / verification rest on: every secret in [1, n-1] is a key,
-    and k*P reduces k mod n and is total (shared with C01.6 / C03.13)"""
+    """the key range and the curve arithmetic BIP340 signing / verification rest on: every secret in [1, n-1] is a key, k*P reduces
+    k mod n and is total, field operations stay in the field, double-and-add and point addition are the group law
+    (shared with C01.6 / C03.10 / C03.13 / C03.14 / C03.16)"""
     from rules.C01 import c01_6
-    from rules.C03 import c03_13
-    return c01_6(ctx) + c03_13(ctx)
+    from rules.C03 import c03_10, c03_13, c03_14, c03_16
+    return c01_6(ctx) + c03_13(ctx) + c03_10(ctx) + c03_14(ctx) + c03_16(ctx)
 
 
 OBLIGATIONS = [
